@@ -166,8 +166,7 @@ def shard_one_element(col, shard):
 def shard_docref(col, shard_i, ngrammars, ninputs, shrink):
     import props.c01_docref as D
     stats = [D.run(col, seed=col.rng.randrange(2 ** 30), ngrammars=ngrammars, ninputs=ninputs, shrink=shrink)]
-    if shard_i == 0:
-        stats.append(D.run_corpus(col, seed=col.rng.randrange(2 ** 30), shrink=shrink))
+    stats.append(D.run_corpus(col, seed=col.rng.randrange(2 ** 30), shrink=shrink, part=(shard_i, 14)))
     for st in stats:
         col.count('docref.compared', st['cases'])
         col.count('docref.agree', st['agree'])
